@@ -114,6 +114,11 @@ Sparse == \E k \in 1..Len(segs) : LET r == SegRecs(log, segs, k) IN
              r # <<>> /\ (r[1].off # segs[k].base \/ Last(r).off - r[1].off + 1 # Len(r))
 RevName == IF Sparse THEN "ReadRev:sparse-segment" ELSE "ReadRev:dense"
 
+\* argument class of a timestamp look-up failure: an empty active segment behind
+\* other segments (left by an append that optimistic concurrency control refused)
+TsName == IF Len(segs) > 1 /\ SegRecs(log, segs, Len(segs)) = <<>>
+          THEN "TsLookup:empty-active-segment" ELSE "TsLookup"
+
 TraceNext ==
   /\ Trace[l].a # "End"
   /\ l' = l + 1
@@ -143,7 +148,7 @@ TraceNext ==
      /\ IF e.win THEN TRUE
         ELSE /\ Chk(FwdOK', "P", e, "ReadFwd")
              /\ Chk(RevOK', "P", e, RevName')
-             /\ Chk(TsOK', "P", e, "TsLookup")
+             /\ Chk(TsOK', "P", e, TsName')
              /\ Chk(FwdKindOK', "I", e, "ReadFwdKind")
              /\ Chk(RevKindOK', "I", e, "ReadRevKind")
 
